@@ -6,6 +6,7 @@ from warnings import warn
 
 import numpy as np
 import pandas as pd
+from optlang.interface import OPTIMAL
 from optlang.symbolics import Zero
 
 from ..core import Configuration, get_solution
@@ -308,14 +309,23 @@ def find_blocked_reactions(
                 )
         if reaction_list is None:
             reaction_list = model.reactions
+        else:
+            # identifiers are accepted as well
+            reaction_list = model.reactions.get_by_any(list(reaction_list))
         # Limit the search space to reactions which have zero flux. If the
         # reactions already carry flux in this solution,
         # then they cannot be blocked.
         model.slim_optimize()
-        solution = get_solution(model, reactions=reaction_list)
-        reaction_list = solution.fluxes[
-            solution.fluxes.abs() < zero_cutoff
-        ].index.tolist()
+        if model.solver.status == OPTIMAL:
+            solution = get_solution(model, reactions=reaction_list)
+            reaction_list = solution.fluxes[
+                solution.fluxes.abs() < zero_cutoff
+            ].index.tolist()
+        # Whether a reaction can carry flux does not depend on the objective:
+        # without one, the variability analysis below imposes no requirement on
+        # it (a fraction of zero still demands objective >= 0, or <= 0 when
+        # minimizing).
+        model.objective = Zero
         # Run FVA to find reactions where both the minimal and maximal flux
         # are zero (below the cut off).
         flux_span = flux_variability_analysis(
